@@ -339,7 +339,9 @@ func (t Token) Float32() (float32, bool) {
 			return float32(f), true
 		}
 	case numberValue:
-		n, err := strconv.ParseFloat(t.str, 64)
+		// Parse with 32-bit precision: parsing as a float64 and converting
+		// rounds twice, which is wrong for some decimal strings.
+		n, err := strconv.ParseFloat(t.str, 32)
 		if err == nil {
 			// Overflows are treated as (-)infinity.
 			return float32(n), true
